@@ -231,10 +231,25 @@ def default_is_new(ctx, F):
     """IncrementalDocument::default() is IncrementalDocument::new(): an empty history, not an update "of" an empty document
     (new_from_prev would give the first revision a /Prev 0 pointing at the header)."""
     db = F.fn("<IncrementalDocument as Default>::default")
-    cs = [c.cname for c in db.calls if c.local]
-    ctx.ob("R-SIB", "default-is-new|IncrementalDocument", cs == ["IncrementalDocument::new"], "Default for IncrementalDocument delegates to new() (%s)" % cs, db.where(),
-           what="<IncrementalDocument as Default>::default builds its value through %s instead of IncrementalDocument::new: the document it saves carries /Prev 0, which no cross-reference section stands at" % cs)
+    nb = F.fn("IncrementalDocument::new")
 
+    def leaves(b, seen=()):
+        """the crate-local constructors a value is finally built from: `T::default()` and `IncrementalDocument::new()` are
+        looked into (either may be written in terms of the other, or derived field by field), anything else is a leaf."""
+        out = []
+        for c in b.calls:
+            if not c.local:
+                continue
+            cb = F.bodies.get(c.name)
+            if cb is not None and cb.path not in seen and (re.search(r" as (std|core)::default::Default>::default$", cb.path) or F.canon_of(cb) == "IncrementalDocument::new"):
+                out.extend(leaves(cb, seen + (b.path,)))
+            else:
+                out.append(c.cname)
+        return sorted(out)
+    ld, ln_ = leaves(db), leaves(nb)
+    ok = ld == ln_ and bool(ld) and set(ld) == {"Document::new"}
+    ctx.ob("R-SIB", "default-is-new|IncrementalDocument", ok, "Default for IncrementalDocument and new() build the same value from empty documents (%s)" % ld, db.where(),
+           what="<IncrementalDocument as Default>::default builds its value through %s, IncrementalDocument::new through %s (both must come down to Document::new alone): the document it saves carries /Prev 0, which no cross-reference section stands at" % (ld, ln_))
 
 def run(ctx):
     _run(ctx)
